@@ -46,8 +46,9 @@ def oracle(ctx, deep=False):
     n = ctx.n(150, 4000) * (3 if deep else 1)
     for i in range(n):
         cfg = meanx.cfg_json(meanx.rand_cfg(ctx.rng, covariates=0, ratio_metric=False))
-        case = {"cfg": cfg, "control": meanx.float_table(ctx.rng, ctx.rng.choice([2, 3, 10, 200])),
-                "treatment": meanx.float_table(ctx.rng, ctx.rng.choice([2, 5, 30, 150]))}
+        kind = ctx.rng.choice(["normal", "lognormal", "ints", "offset"])  # same kind in both variants: well conditioned
+        case = {"cfg": cfg, "control": meanx.float_table(ctx.rng, ctx.rng.choice([2, 3, 10, 200]), kind=kind),
+                "treatment": meanx.float_table(ctx.rng, ctx.rng.choice([2, 5, 30, 150]), kind=kind)}
         bad = _run_case(case)
         ctx.evaluations += 1
         ctx.count(f"oracle:{cfg['alternative']}/{cfg['equal_var']}/{cfg['use_t']}")
